@@ -8,9 +8,10 @@ Input lines (rationals `n/d`, `-` = None, `;` separates coordinates, names are `
     translate 1;2;3 | scale 2 | scale 2;1/2 | scale | rotate z <9 rationals, row major, `;`> | chain <9 rationals> | reflect 1;0;0
     mirror xy | pivot 1;2;3 | save - | save h61 | restore - | restore h61 | delete h61
     enter-current | enter-named h61 | exit 0 | exit 1 | move 1;-;3 | rapid -;2;- | dist rel | dist abs
+    moveabs 1;-;3 | rapidabs -;2;- | setaxis 0;0;-
 
 Record: `outcome | stmts | pos=… rel=… | depth=… ctx=… names=… | ap=… | rv=…`
-  stmts: `G90`, `G91`, or `G1 w=<words, - if absent> mv=<full move vector> d=<A·target − A·current>`; `ap`/`rv`: one `x;y;z` per probe. -/
+  stmts (comma separated): `G90`, `G91`, `G92 w=<words>`, or `G1 w=<words, - if absent> mv=<full move vector> d=<A·target − A·current>`; `ap`/`rv`: one `x;y;z` per probe. -/
 open GscribModel GscribModel.Proto
 namespace GscribModel.TransformDrv
 open GscribModel.Transform
@@ -65,6 +66,9 @@ def parseOp (ws : List String) : Option Op :=
   | ["rapid", p] => (parsePt p).map .rapid
   | ["dist", "rel"] => some (.dist true)
   | ["dist", "abs"] => some (.dist false)
+  | ["moveabs", p] => (parsePt p).map (.moveAbs false)
+  | ["rapidabs", p] => (parsePt p).map (.moveAbs true)
+  | ["setaxis", p] => (parsePt p).map .setAxis
   | _ => none
 
 def showV3 (v : V3) : String := s!"{showRat v.x};{showRat v.y};{showRat v.z}"
@@ -80,6 +84,7 @@ structure St where
 def showStmt (c : Core) (op : Op) : Stmt → String
   | .mode true => "G91"
   | .mode false => "G90"
+  | .set w => "G92 w=" ++ showPt w
   | .go rapid w =>
     let extra := match op with
       | .move req | .rapid req =>
